@@ -237,6 +237,29 @@ def stepN (fo : FloatOps) (fuel : Nat) (s : StN) (op : Json) : E (StN × Json) :
     -- meta-data edits: the model's histograms carry no meta data (values): nothing changes
     let _ ← s.get (← reg "h")
     pure (s, Json.str "ok")
+  | "set_adaptive" =>
+    -- `h.set_adaptive(v)` (all axes; refused unless every axis is fixed-width) or, with "axis", the flag of that axis'
+    -- binning object (`h.binnings[i].set_adaptive(v)`: only making a static binning adaptive is refused)
+    let r ← reg "h"
+    let h ← s.get r
+    let v := getBoolD op "value" true
+    let setB (b : Binning) : Binning := match b with
+      | .fixed g => .fixed { g with adaptive := v }
+      | x => x
+    match (fieldD op "axis").getNat? with
+    | .ok i =>
+      match h.axes[i]? with
+      | some (.fixed _) => pure (s.set r { h with axes := h.axes.modify i setB }, Json.str "ok")
+      | some (.static _ _) => pure (s, Json.str (if v then "REFUSED" else "ok"))
+      | none => pure (s, Json.str "REFUSED")
+    | .error _ =>
+      if h.axes.all Binning.adaptiveAllowed then pure (s.set r { h with axes := h.axes.map setB }, Json.str "ok")
+      else pure (s, Json.str "REFUSED")
+  | "set_keep" =>
+    -- `h.keep_missed = v`: a plain attribute; the stored missed weight stays as it is
+    let r ← reg "h"
+    let h ← s.get r
+    pure (s.set r { h with keep := getBoolD op "value" true }, Json.str "ok")
   | "copy" =>
     let h ← s.get (← reg "h")
     pure (s.set (← reg "out") (h.copy (getBoolD op "with_freq" true)), Json.str "ok")
